@@ -398,7 +398,9 @@ impl<M> Default for Common<M> {
     /// Create a builder representing an entity with no components
     fn default() -> Self {
         Self {
-            storage: NonNull::dangling(),
+            // Dangling, but aligned to `layout` so that zero-sized components stored before the
+            // first allocation are well-aligned
+            storage: NonNull::new(8 as *mut u8).unwrap(),
             layout: Layout::from_size_align(0, 8).unwrap(),
             cursor: 0,
             info: Vec::new(),
